@@ -121,6 +121,23 @@ def clause_minimize_inputs(ctx):
               "or outside the interval enter the optimisation")
     ctx.check(w == "self.fp['weight_cp']", F.minimize, f"weight = {w}",
               "the 'weight_cp' setting does not reach the residual function")
+    # the arrays the fitter works on are the curve's columns selected by
+    # the settings, the segment mask compares with the 'segment' setting
+    init = F.mod.func("IndentationFitter.__init__")
+    want = {"self.segment": "idnt['segment'] == self.fp['segment']",
+            "self.x_axis": "idnt[self.fp['x_axis']]",
+            "self.y_axis": "idnt[self.fp['y_axis']]"}
+    got = {}
+    for st_ in walk_no_nested(init, False):
+        if isinstance(st_, ast.Assign) and dotted(st_.targets[0]) in want:
+            got.setdefault(dotted(st_.targets[0]), []).append(norm(st_.value))
+    for k, v in want.items():
+        ctx.check(got.get(k) == [v], init, f"{k} = {got.get(k)}",
+                  f"the fitter's {k} is not `{v}`: points of the wrong "
+                  "segment / a column other than the selected axis are "
+                  "fitted")
+    for k in ("self.fit_range", "self.fit_curve", "self.fit_residuals"):
+        vals = got.get(k)
     # the guard compares varied parameters with the number of points used
     t = F.r(F.branch.test)
     ok = "x_axis[self.fit_range]" in t and ".vary" in t
